@@ -933,6 +933,7 @@ class Pyramid(object):
     def _walk_parallel(self, callback, cli_progress, parallel):
         import multiprocessing as mp
         from queue import Empty
+        from .par_util import check_worker_exit_codes
 
         # When dispatching we keep track of finished tiles (reported in
         # `done_queue`) and notify workers when new tiles are ready to process
@@ -1033,6 +1034,14 @@ class Pyramid(object):
                 except (OSError, ValueError, Empty):
                     # OSError or ValueError => queue closed. This signal seems not to
                     # cross multiprocess lines, though.
+
+                    # If a worker has died, the tiles that depend on its work
+                    # will never become ready, so we would wait forever.
+                    if any(not w.is_alive() for w in workers):
+                        raise Exception(
+                            "a worker process exited unexpectedly during the walk"
+                        )
+
                     continue
 
                 progress.update(1)
@@ -1064,6 +1073,8 @@ class Pyramid(object):
 
         for w in workers:
             w.join()
+
+        check_worker_exit_codes(workers)
 
     def visit_leaves(
         self,
@@ -1158,6 +1169,7 @@ class Pyramid(object):
 
     def _visit_leaves_parallel(self, callback, total, cli_progress, parallel):
         import multiprocessing as mp
+        from .par_util import check_worker_exit_codes
 
         ready_queue = mp.Queue(maxsize=2 * parallel)
         done_event = mp.Event()
@@ -1195,6 +1207,8 @@ class Pyramid(object):
 
         for w in workers:
             w.join()
+
+        check_worker_exit_codes(workers)
 
 
 class PyramidReductionIterator(object):
